@@ -190,7 +190,7 @@ def models(which, quick):
               ("D9_inflight", False, False, dict(N=5, PRE=2, KB=2), ["InFlightK"])]
         if not quick:
             M += [("look_n8_pre4", True, False, dict(N=8, PRE=4), ["Lookahead"]),
-                  ("D9_n10", False, False, dict(N=10, PRE=2), ["Lookahead"])]
+                  ("D9_n12", False, False, dict(N=12, PRE=2, K=6), ["LookK"])]
     elif which == "C16":
         M += [("gen", True, False, dict(N=4, Mode="gen")), ("unord", True, False, dict(N=4, Mode="unordered")),
               ("gen_2calls_close", True, False, dict(N=3, Mode="gen", Calls=2)),
